@@ -44,6 +44,11 @@ func (e *Engine) Assumptions() []string {
 func (e *Engine) stackRefinement(t *core.Tape, st *core.Stats) (v *core.Violation) {
 	size := []int{1, 2, 3, 7, 8, 9, 15, 16, 17, 23, 24, 25, 31, 32, 33, 40, 63, 64, 65, 66, 120, 255, 256, 257}[t.Choose(24)]
 	auto := t.Bool()
+	if auto && t.Choose(12) == 0 {
+		// limits beyond 65536 segments of eight frames (the auto-growing stack allocates frames only as they are used)
+		size = []int{524280, 524288, 524289, 524296, 600000}[t.Choose(5)]
+		st.Probe("callstack_limit_beyond_65536_segments")
+	}
 	capacity := size
 	if auto {
 		capacity = (size + 7) / 8 * 8
